@@ -81,3 +81,160 @@ def install(loader):
         return 2
     hbar._vc_dynamic = True
     loader.sf_attrs["strawberryfields.hbar"] = hbar
+    install_thewalrus(loader)
+
+
+# ======================================================================================
+# thewalrus.symplectic: executable models written from the library's documentation.  They are
+# ASSUMED contracts (listed in trusted_base); native/lib_conformance.py compares them with the
+# real thewalrus numerically.
+# ======================================================================================
+import numpy as _np
+
+
+def _oz(shape):
+    a = _np.empty(shape, dtype=object)
+    a.fill(0.0)
+    return a
+
+
+def _eye(n):
+    a = _oz((n, n))
+    for k in range(n):
+        a[k, k] = 1.0
+    return a
+
+
+def _M():
+    """math namespace: engine abstraction when active, else numpy"""
+    eng = _st.ENGINE
+    if eng is not None:
+        return eng.math
+    return _np
+
+
+def tw_interferometer(U):
+    U = _np.asarray(U) if not isinstance(U, _np.ndarray) else U
+    n = U.shape[0]
+    S = _oz((2 * n, 2 * n))
+    for a in range(n):
+        for b in range(n):
+            u = U[a, b]
+            re = u.real if not isinstance(u, (int, float)) else u
+            im = u.imag if not isinstance(u, (int, float)) else 0.0
+            S[a, b] = re
+            S[a, b + n] = -im
+            S[a + n, b] = im
+            S[a + n, b + n] = re
+    return S
+
+
+def tw_rotation(theta, dtype=None):
+    m = _M()
+    c, s = m.cos(theta), m.sin(theta)
+    S = _oz((2, 2))
+    S[0, 0], S[0, 1], S[1, 0], S[1, 1] = c, -s, s, c
+    return S
+
+
+def tw_squeezing(r, phi=None, dtype=None):
+    m = _M()
+    if phi is None:
+        phi = 0.0
+    ch, sh, cp, sp = m.cosh(r), m.sinh(r), m.cos(phi), m.sin(phi)
+    S = _oz((2, 2))
+    S[0, 0] = ch - sh * cp
+    S[0, 1] = -sh * sp
+    S[1, 0] = -sh * sp
+    S[1, 1] = ch + sh * cp
+    return S
+
+
+def tw_two_mode_squeezing(r, phi, dtype=None):
+    m = _M()
+    cp, sp, ch, sh = m.cos(phi), m.sin(phi), m.cosh(r), m.sinh(r)
+    S = _oz((4, 4))
+    rows = [[ch, cp * sh, 0, sp * sh], [cp * sh, ch, sp * sh, 0], [0, sp * sh, ch, -cp * sh], [sp * sh, 0, -cp * sh, ch]]
+    for a in range(4):
+        for b in range(4):
+            S[a, b] = rows[a][b]
+    return S
+
+
+def tw_beam_splitter(theta, phi, dtype=None):
+    m = _M()
+    ct, st, cp, sp = m.cos(theta), m.sin(theta), m.cos(phi), m.sin(phi)
+    # U = [[ct, -conj(e) st], [e st, ct]], e = cp + i sp
+    S = _oz((4, 4))
+    re = [[ct, -cp * st], [cp * st, ct]]
+    im = [[0, sp * st], [sp * st, 0]]
+    for a in range(2):
+        for b in range(2):
+            S[a, b] = re[a][b]
+            S[a, b + 2] = -im[a][b] if not isinstance(im[a][b], int) else 0
+            S[a + 2, b] = im[a][b]
+            S[a + 2, b + 2] = re[a][b]
+    return S
+
+
+def tw_expand(S, modes, N):
+    S = _np.asarray(S) if not isinstance(S, _np.ndarray) else S
+    M = S.shape[0] // 2
+    modes = [modes] if isinstance(modes, int) else list(modes)
+    S2 = _eye(2 * N)
+    for a, ma in enumerate(modes):
+        for b, mb in enumerate(modes):
+            S2[ma, mb] = S[a, b]
+            S2[ma + N, mb + N] = S[a + M, b + M]
+            S2[ma, mb + N] = S[a, b + M]
+            S2[ma + N, mb] = S[a + M, b]
+    return S2
+
+
+def tw_xxpp_to_xpxp(S):
+    S = _np.asarray(S)
+    n = S.shape[0] // 2
+    ind = _np.arange(2 * n).reshape(2, -1).T.flatten()
+    if S.ndim == 1:
+        return S[ind]
+    return S[:, ind][ind]
+
+
+def tw_xpxp_to_xxpp(S):
+    S = _np.asarray(S)
+    n = S.shape[0] // 2
+    ind = _np.arange(2 * n).reshape(-1, 2).T.flatten()
+    if S.ndim == 1:
+        return S[ind]
+    return S[:, ind][ind]
+
+
+def tw_sympmat(N, dtype=None):
+    O = _oz((2 * N, 2 * N))
+    for k in range(N):
+        O[k, k + N] = 1.0
+        O[k + N, k] = -1.0
+    return O
+
+
+TW_SYMPLECTIC = {"interferometer": tw_interferometer, "rotation": tw_rotation, "squeezing": tw_squeezing,
+                 "two_mode_squeezing": tw_two_mode_squeezing, "beam_splitter": tw_beam_splitter, "expand": tw_expand,
+                 "xxpp_to_xpxp": tw_xxpp_to_xpxp, "xpxp_to_xxpp": tw_xpxp_to_xxpp, "sympmat": tw_sympmat}
+
+
+def install_thewalrus(loader):
+    from .instrument import Stub
+    tw = loader.overrides.get("thewalrus")
+    if tw is None:
+        tw = Stub("thewalrus")
+        loader.overrides["thewalrus"] = tw
+    sym = tw.symplectic
+    for k, f in TW_SYMPLECTIC.items():
+        def wrap(f=f, k=k):
+            def g(*a, **kw):
+                if _st.ENGINE is not None:
+                    _st.ENGINE.trust(f"library model: thewalrus.symplectic.{k} (documented matrix; conformance-tested natively)")
+                return f(*a, **kw)
+            g.__name__ = k
+            return g
+        setattr(sym, k, wrap())
